@@ -772,6 +772,17 @@ def oracle(inp):
         return fail(f"{which} EI: after lie locations were appended the incumbent is no longer the documented one", b1, dict(before=b0))
       v_after = af.evaluate_at_point_list(xs)
       m3, v3 = af.predictor.compute_mean_and_variance_of_points(xs)
+      # the lie-augmented kernel matrix can be (nearly) singular - lies at duplicated or already sampled locations carry a noise of
+      # 1e-12 -, and two evaluations of the same posterior then differ by the forward error of the solves, eps * cond(K) (reading of C02)
+      pr_ = af.predictor
+      try:
+        Kaug = pr_.covariance.build_kernel_matrix(pr_.points_sampled, noise_variance=pr_.points_sampled_noise_variance)
+        cond_aug = float(numpy.linalg.cond(Kaug))
+      except Exception:
+        cond_aug = float("inf")
+      slack_c = 1e-14 * cond_aug * (1.0 + abs(b1) + float(numpy.abs(m3).max()))
+      if not math.isfinite(slack_c) or slack_c > 1e-3:
+        continue    # too ill-conditioned to decide a value clause (the incumbent clause above was decided)
       for i in range(len(xs)):
         q = ei_quadrature(float(m3[i]), float(math.sqrt(v3[i])), b1)
         fac = 1.0
@@ -779,7 +790,7 @@ def oracle(inp):
           fac = 1 - math.sqrt(float(af.noise_variance) / (float(v3[i]) + float(af.noise_variance)))
         elif which == "fail":
           fac = float(pr.compute_probability_of_success(xs[i:i + 1])[0])
-        if abs(float(v_after[i]) - q * fac) > 1e-7 * max(math.sqrt(v3[i]), 1e-12) + 1e-9 * abs(q) + 1e-300:
+        if abs(float(v_after[i]) - q * fac) > 1e-7 * max(math.sqrt(v3[i]), 1e-12) + 1e-9 * abs(q) + slack_c + 1e-300:
           return fail(f"{which} EI after appended lies is not E[max(best - Y, 0)] at the documented incumbent times its factor", float(v_after[i]), q * fac)
   if inp.get("task_cost") is not None and xs.shape[1] >= 2:
     m = MultitaskAcquisitionFunction(ei)
